@@ -257,6 +257,11 @@ func (h *H) NextN() (idx int64, run bool) {
 		return i, false
 	}
 	if int(i%int64(h.NShards)) == h.Shard {
+		// past the internal deadline the remaining cases are skipped and the run is reported
+		// as not exhaustive (Cap), never as a failure
+		if h.Expired() {
+			return i, false
+		}
 		wdProgress.Add(1)
 		wdLast.Store(i)
 		return i, true
